@@ -145,6 +145,11 @@ func (di *docValueReader) loadDvChunk(chunkNumber uint64, s *Segment) error {
 	destChunkDataLoc += start
 	curChunkEnd += end
 
+	// the header is overwritten in place below: until the whole chunk is loaded
+	// the reader holds no chunk (a read error must not leave a mixed header behind
+	// that still answers for the previous chunk)
+	di.curChunkNum = math.MaxInt64
+
 	// read the number of docs reside in the chunk
 	numDocsData, err := s.data.Read(int(destChunkDataLoc), int(destChunkDataLoc+binary.MaxVarintLen64))
 	if err != nil {
